@@ -23,7 +23,7 @@ RULE = ("A real parse_folder.main() is run in-process on generated jobs (2-3 pag
 ASSUMPTIONS = ["kills inside a write (torn files) are outside the statement and are not injected",
                "pages are processed sequentially (--process-count 1) so that 'between two consecutive writes' is well defined"]
 
-ID_SETS = [("a", "a.xml.b", "scan.v2"), ("p", "p.jpg.1"), ("x.logits.y", "x", "z 1"), ("doc-1", "doc-1.v2", "b.jpg")]
+ID_SETS = [("a", "a.xml.b", "scan.v2"), ("p", "p.jpg.1"), ("x.logits.y", "x", "a 1"), ("doc-1", "doc-1.v2", "b.jpg")]
 LINES = (2, 1, 3)
 SUBSETS = [tuple(k for k, bit in zip(F.OUTPUT_KINDS, bits) if bit) for bits in itertools.product((0, 1), repeat=5) if any(bits)]
 QUICK_SUBSETS = [F.OUTPUT_KINDS, ("xml", "alto"), ("xml", "render", "logits"), ("logits", "lines"), ("alto",)]
